@@ -77,7 +77,8 @@ func (c *evalOrderChecker) VisitStmt(stmt ast.Stmt) {
 
 func (c *evalOrderChecker) hasPtrRecv(fn *ast.Ident) bool {
 	sig, ok := c.ctx.TypeOf(fn).(*types.Signature)
-	if !ok {
+	if !ok || sig.Recv() == nil {
+		// Not a method: a function-valued field has no receiver.
 		return false
 	}
 	return typep.IsPointer(sig.Recv().Type())
